@@ -150,7 +150,10 @@ impl HdlcDeframer {
                 // We can't move from `bits`, since it's only borrowed,
                 // but we can swap its contents.
                 std::mem::swap(&mut bits, inbits);
-                if bits.len() > self.max_size * 8 {
+                // The buffer also holds up to 7 bits of the closing flag before
+                // it's recognised as one. A frame of exactly max_size bytes is
+                // still allowed.
+                if bits.len() > self.max_size * 8 + 7 {
                     return Ok(State::Unsynced(0xff));
                 }
                 if bit > 0 {
